@@ -194,13 +194,16 @@ claim("C17",
       design_ref="DESIGN.md §5 C17")
 
 claim("C20",
-      text="Lean 4 theorems (25) over a model of commands.convert (format-name parsing, codec and converter selection, per-item "
+      text="Lean 4 theorems (29) over a model of commands.convert (format-name parsing, codec and converter selection, per-item "
            "error isolation, and the header + joiner.join(parts) + footer assembly with its indent and -lines paths) prove, for "
            "every item list including N = 0, for every codec module, with and without indentation and -lines, that the "
            "assembled text is read back by the target family's document reader as exactly the converted items in order. The side "
            "conditions on the HEADER/JOINER/FOOTER constants are discharged by decide on a table regenerated from the live codec "
            "modules, so a changed constant breaks the proof. The converter table (identity iff representations agree; defined "
-           "exactly for mrs→dmrs, dmrs→mrs, mrs→eds) is proved.",
+           "exactly for mrs→dmrs, dmrs→mrs, mrs→eds) is proved. Relative to the per-item round-trip hypotheses that C01–C03 establish "
+           "(RoundTrips, WritesItems, stated over an opaque item codec), loads(convert(items)) is exactly the N converted "
+           "structures in order (loads_convert) and transcoding to another format of the same representation and back "
+           "reproduces the structures up to what both formats carry (transcode_there_and_back, transcode_identity_on_common).",
       note="Items are opaque texts in the model; that each real item text satisfies the stated item predicate is checked on every "
            "generated conversion, not proved. That the real codecs read each item back correctly, the same-representation "
            "transcoding clause, the reading side (files, streams, TSQL selection) and the export-only block clause are decided by "
